@@ -116,6 +116,25 @@ type e1Run struct {
 	inbound            int
 	closeOverlapSender bool
 	closerSawSenderAt  map[string]bool
+	inactive           []error
+	inactiveSeq        []int
+	exceptions         []error
+}
+
+// afterClosed in E1Task.After gates a task until the Close call that took effect has returned.
+const afterClosed = -10
+
+// closeReturned: inactive was delivered (the last step of Close) and no task is inside Close any more.
+func (r *e1Run) closeReturned() bool {
+	if len(r.inactive) == 0 {
+		return false
+	}
+	for _, t := range r.s.Parked() {
+		if l := t.Label(); strings.HasPrefix(l, "close.") || l == "t.close" {
+			return false
+		}
+	}
+	return true
 }
 
 var e1cur *e1Run
@@ -487,6 +506,14 @@ func newE1(c E1Case, handlers ...netty.Handler) *e1Run {
 	for _, h := range handlers {
 		r.pl.AddLast(h)
 	}
+	r.pl.AddLast(netty.InactiveHandlerFunc(func(ctx netty.InactiveContext, ex netty.Exception) {
+		r.inactive = append(r.inactive, ex)
+		r.inactiveSeq = append(r.inactiveSeq, r.s.Seq())
+		ctx.HandleInactive(ex)
+	}), netty.ExceptionHandlerFunc(func(ctx netty.ExceptionContext, ex netty.Exception) {
+		r.exceptions = append(r.exceptions, ex)
+		ctx.HandleException(ex)
+	}))
 	if !r.noDrain {
 		// the inbound end of every pipeline: reads the transport like a codec does
 		// (parks in the mock's Read while no data is available, raises on failure)
@@ -522,6 +549,9 @@ func (r *e1Run) start() error {
 			t.Gate(func() bool {
 				for _, a := range after {
 					if a >= 0 && a < len(r.tasks) && !r.tasks[a].Done() {
+						return false
+					}
+					if a == afterClosed && !r.closeReturned() {
 						return false
 					}
 				}
@@ -640,6 +670,17 @@ func (r *e1Run) sweep(closeChannel bool) {
 			r.incon = "sweep cancel: " + err.Error()
 		}
 	}
+}
+
+// firstCloseBegin is the sequence number at which the first explicit Close call began (0 = none).
+func (r *e1Run) firstCloseBegin() int {
+	b := 0
+	for _, c := range r.closeCalls {
+		if c.Begin != 0 && (b == 0 || c.Begin < b) {
+			b = c.Begin
+		}
+	}
+	return b
 }
 
 // stuck lists tasks that are parked but not enabled.
